@@ -545,6 +545,24 @@ def run_obligation(prop, ob_dict, known):
         except (ValueError, OSError):
             pass
         flag = os.environ.get('VF_SETTLED_FLAG')
+        # the alarm cannot interrupt a long C call (observed: Z3_model_eval doing algebraic-number arithmetic for 50 min on a
+        # changed tree): a watchdog thread asks z3 to cancel whatever it is doing once the budget (or, after another
+        # obligation has settled the verdict, 90 s) has passed; the cancelled call raises and the obligation ends inconclusive
+        import threading
+
+        def _watchdog():
+            settled_at = None
+            while True:
+                time.sleep(5)
+                now = time.time()
+                if flag and settled_at is None and os.path.exists(flag):
+                    settled_at = now
+                if now > t0 + ob.timeout_s + 40 or (settled_at is not None and now > settled_at + 90):
+                    try:
+                        z3.main_ctx().interrupt()
+                    except Exception:
+                        pass
+        threading.Thread(target=_watchdog, daemon=True).start()
         nonlocal_deadline = [deadline]
 
         def body():
